@@ -110,6 +110,24 @@ CLAIMED['C11'] = dict(
     technique="TLA+ invariance property model-checked by TLC + TLC judging of paired real executions",
     design_ref="DESIGN.md §6 C11")
 
+CLAIMED['C14'] = dict(
+    text="Design: TLC model-checks specs/Selector.tla (rank by measure with ties in any order and undefined measures dropped, greedy 'keep unless too associated with a kept better-ranked "
+         "feature' filter one feature per action, n_best cut) for 4 features x all measure levels / undefined entries x all 64 association matrices x n_best, against Inv_C14 and termination. "
+         "Binding (code->spec): real ClassificationSelector / RegressionSelector runs on seeded frames with correlated clusters, copies, ties, NaN-heavy and constant columns; the harness "
+         "recomputes every measure and inter-feature association from numpy primitives; TLC (SelectorTrace.tla) judges the returned list with the operators of SelectorOps.tla and compares the "
+         "library's measure values with the recomputation.",
+    note="Trusted: TLC, the independent recomputation in drivers/selector.py (TLC has no floating point: numeric agreement is compared on scaled integers), seeded sampling. Known finding F08a is "
+         "matched by a TLC-computed predicate (every unexplained omission has recomputed distance 0 and no library value).",
+    technique="TLA+ design model checked by TLC + TLC trace validation of real selections against independently recomputed measure tables",
+    design_ref="DESIGN.md §5.6, §6 C14")
+CLAIMED['C15'] = dict(
+    text="Design: Inv_C15_Top of specs/Selector.tla (the strictly best-ranked defined feature is always returned); the abstract measure table is unchanged by the re-encodings. Binding: paired "
+         "real runs (negate / rescale a quantitative feature, rename categories, permute rows, permute columns) judged by TLC with ReencodeTrace.tla (same returned list in the same order, up "
+         "to exchanging exactly tied features), and frames containing a copy / increasing affine image of the target judged with SelectorTrace.tla (it must be returned).",
+    note="Trusted: TLC, drivers/selector.py. Known findings F08b / F08c (default RegressionSelector distance measure) are matched by call-site predicates (task = regression, default quantitative measure).",
+    technique="TLA+ design invariant checked by TLC + TLC judging of paired real executions",
+    design_ref="DESIGN.md §5.6, §6 C15")
+
 NOT_YET = "check not built yet in this round (planned, see DESIGN.md §9); no claim is made"
 
 checks, na = [], []
